@@ -65,6 +65,8 @@ func CmdCheck(args []string) int {
 	verif := fs.String("verif", "/verif", "verification directory")
 	prop := fs.String("property", "", "property id")
 	tier := fs.String("tier", "", "quick | thorough")
+	noEvidence := fs.Bool("no-evidence", false, "do not write evidence or replay files (self-test on scratch copies)")
+	noStandins := fs.Bool("no-standins", false, "skip stand-ins (they are bound to /repo)")
 	fs.Parse(args)
 	if *tier == "" {
 		*tier = os.Getenv("VERIF_TIER")
@@ -217,6 +219,9 @@ func CmdCheck(args []string) int {
 	// stand-ins
 	var standinReports []map[string]any
 	for _, si := range claim.StandIns {
+		if *noStandins {
+			break
+		}
 		if !(si.Tier == "both" || si.Tier == *tier || si.Tier == "") {
 			continue
 		}
@@ -257,13 +262,15 @@ func CmdCheck(args []string) int {
 		} else if strings.HasPrefix(f.name, "standin:") {
 			suffix = ""
 		}
-		if f.query != "" {
+		if f.query != "" && !*noEvidence {
 			qp := strings.TrimSuffix(path, ".json") + ".smt2"
 			os.WriteFile(qp, []byte(f.query+"(check-sat)\n"), 0o644)
 			rp["query_file"] = qp
 		}
 		b, _ := json.MarshalIndent(rp, "", " ")
-		os.WriteFile(path, b, 0o644)
+		if !*noEvidence {
+			os.WriteFile(path, b, 0o644)
+		}
 		lines = append(lines, fmt.Sprintf("VIOLATION property=%s replay=%s obligation=%s status=%s%s", claim.Property, path, f.name, f.status, suffix))
 	}
 	// evidence
@@ -315,7 +322,9 @@ func CmdCheck(args []string) int {
 	}
 	ev.WallS = round3(time.Since(t0).Seconds())
 	b, _ := json.MarshalIndent(ev, "", " ")
-	os.WriteFile(filepath.Join(*verif, "evidence", claim.Property+".json"), b, 0o644)
+	if !*noEvidence {
+		os.WriteFile(filepath.Join(*verif, "evidence", claim.Property+".json"), b, 0o644)
+	}
 	for _, l := range lines {
 		fmt.Println(l)
 	}
